@@ -177,7 +177,7 @@ def pipelineOkMB (st : StructTable) (n : Nat) (P : Program) (pins outs : List Pa
     | some e => hasTyB st n (selfTyOfB pins) (callTyOfB (calls.map fun c => (c.id, callTyMB c))) p.ty e
     | none => true
 
-/-- decidable hypotheses of `resolver_refines_den_staticmap_checked` -/
+/-- decidable hypotheses of `resolver_refines_den_staticmap_checked_partial` -/
 def wellTypedMB (P : Program) : Bool :=
   structsOkB P.table &&
   (P.callables.all fun e => P.table.lookup e.1 == some e.2.outs) &&
@@ -234,7 +234,7 @@ def pipelineOkGB (st : StructTable) (n : Nat) (P : Program) (pins outs : List Pa
       | none => true
   | none => false
 
-/-- decidable hypotheses of `resolver_refines_den_mapstatic_checked` (with `staticProgramOk`, `acyclicB`) -/
+/-- decidable hypotheses of `resolver_refines_den_mapstatic_checked_partial` (with `staticProgramOk`, `acyclicB`) -/
 def wellTypedGB (P : Program) : Bool :=
   structsOkB P.table &&
   (P.callables.all fun e => P.table.lookup e.1 == some e.2.outs) &&
@@ -278,7 +278,7 @@ def pipelineOkTB (st : StructTable) (n : Nat) (P : Program) (pins outs : List Pa
     | some e => hasTyB st n (selfTyOfB pins) (callTyOfB (calls.map fun c => (c.id, callTyMB c))) p.ty e
     | none => true
 
-/-- decidable typing hypothesis of `resolver_refines_den_mappedpipes_checked` -/
+/-- decidable typing hypothesis of `resolver_refines_den_mappedpipes_checked_partial` -/
 def wellTypedTB (P : Program) : Bool :=
   structsOkB P.table &&
   (P.callables.all fun e => P.table.lookup e.1 == some e.2.outs) &&
@@ -330,7 +330,7 @@ def pipelineOkEB (st : StructTable) (n : Nat) (P : Program) (pins outs : List Pa
       hasTyB st n (selfTyOfB pins) (callTyOfB (calls.map fun c => (c.id, callTyMB c))) p.ty e
     | none => true
 
-/-- decidable typing hypothesis of `resolver_refines_den_disabled_checked` -/
+/-- decidable typing hypothesis of `resolver_refines_den_disabled_checked_partial` -/
 def wellTypedEB (P : Program) : Bool :=
   structsOkB P.table &&
   (P.callables.all fun e => P.table.lookup e.1 == some e.2.outs) &&
@@ -417,7 +417,7 @@ def pipelineOkRB (st : StructTable) (n : Nat) (P : Program) (pins outs : List Pa
       hasTyB st n (selfTyOfB pins) (callTyOfB (callTypesS st (selfTyOfB pins) [] calls)) p.ty e
     | none => true
 
-/-- decidable typing hypothesis of `resolver_refines_den_runtime_checked` -/
+/-- decidable typing hypothesis of `resolver_refines_den_runtime_checked_partial` -/
 def wellTypedRB (P : Program) : Bool :=
   structsOkB P.table &&
   (P.callables.all fun e => P.table.lookup e.1 == some e.2.outs) &&
